@@ -7,6 +7,7 @@
 import IcingaModel.C20.Model
 import IcingaModel.C20.Spec
 import IcingaModel.C20.Json
+import IcingaModel.C20.Limit
 
 namespace Icinga.C20
 
@@ -19,8 +20,8 @@ inductive MsgErr
 /-- jsonrpc.cpp:147-157: decode, insist on a dictionary, return it. -/
 def decodeMessage {N : Type} (c : NumCodec N) (bs : List UInt8) :
     Except MsgErr (List (List Char × JValue N)) :=
-  match jsonDecode c bs with
-  | none => .error .malformed                 -- :149
+  match jsonDecodeL c bs with
+  | none => .error .malformed                 -- :149 (malformed text, or nested too deeply: json.cpp:282,314)
   | some (.obj kvs) => .ok kvs                -- :156
   | some _ => .error .notObject               -- :151-154
 
@@ -67,26 +68,5 @@ def recvMessage {N : Type} (c : NumCodec N) (max : Option Nat) (bs : Bytes) : Re
     match decodeMessage c p with
     | .ok kvs => .message kvs rest
     | .error e => .rejected e rest
-
-/-! ### nesting depth (finding F-C20a: nothing bounds it) -/
-
-/-- `n` arrays inside each other around an empty array: the value of the text `[`ⁿ⁺¹ `]`ⁿ⁺¹. -/
-def nest {N : Type} : Nat → JValue N
-  | 0 => .arr []
-  | n + 1 => .arr [nest n]
-
-mutual
-  /-- Nesting depth of a value = depth of the recursion that destroys (or renders) it. -/
-  def depth {N : Type} : JValue N → Nat
-    | .arr xs => depthElems xs + 1
-    | .obj kvs => depthMembers kvs + 1
-    | _ => 0
-  def depthElems {N : Type} : List (JValue N) → Nat
-    | [] => 0
-    | x :: xs => Nat.max (depth x) (depthElems xs)
-  def depthMembers {N : Type} : List (List Char × JValue N) → Nat
-    | [] => 0
-    | (_, v) :: r => Nat.max (depth v) (depthMembers r)
-end
 
 end Icinga.C20
